@@ -248,6 +248,61 @@ def judge_schema(ver, m, subsets, tmpdir, st, rnd):
     return out
 
 
+# (type, fixed literal, [(instance literal, equal in value space?)]) - written from XSD Part 2 (value spaces) and
+# cvc-au ("equal or identical to the value constraint")
+FIXED_MATRIX = [
+    ('xs:int', '5', [('5', True), ('05', True), ('+5', True), (' 5 ', True), ('6', False), ('5.0', False)]),
+    ('xs:decimal', '1.0', [('1', True), ('1.00', True), ('+1.0', True), ('01', True), ('1.1', False)]),
+    ('xs:double', 'NaN', [('NaN', True), ('1', False), ('INF', False)]),
+    ('xs:float', 'NaN', [('NaN', True), (' NaN ', True), ('0', False)]),
+    ('xs:double', 'INF', [('INF', True), ('-INF', False), ('NaN', False)]),
+    ('xs:double', '1', [('1.0', True), ('1.0E0', True), ('10e-1', True), ('2', False)]),
+    ('xs:boolean', 'true', [('true', True), ('1', True), ('false', False), ('0', False)]),
+    ('xs:string', ' a ', [(' a ', True), ('a', False), (' a', False)]),
+    ('xs:token', ' a  b ', [('a b', True), (' a b', True), ('a  b', True), ('ab', False)]),
+    ('xs:date', '2000-01-01Z', [('2000-01-01Z', True), ('2000-01-01+00:00', True), ('2000-01-02Z', False)]),
+    ('xs:NMTOKENS', 'a b', [('a b', True), (' a   b ', True), ('b a', False), ('a', False)]),
+    ('t:ints', '1 2', [('1 2', True), (' 01  +2', True), ('2 1', False), ('1', False)]),
+    ('t:intOrString', '1', [('1', True), ('01', True), ('one', False)]),
+    ('t:doubles', 'NaN 1', [('NaN 1', True), ('NaN 1.0', True), ('1 NaN', False)]),
+]
+FIXED_TYPES = ('<xs:simpleType name="ints"><xs:list itemType="xs:int"/></xs:simpleType>'
+               '<xs:simpleType name="doubles"><xs:list itemType="xs:double"/></xs:simpleType>'
+               '<xs:simpleType name="intOrString"><xs:union memberTypes="xs:int xs:string"/></xs:simpleType>')
+
+
+def judge_fixed_matrix(ver, st):
+    """An attribute with a fixed value: a present value is valid iff equal (or identical) in value space; an absent
+    attribute is valid and decoded with the fixed value."""
+    out = []
+    cls = xmlschema.XMLSchema11 if ver == '11' else xmlschema.XMLSchema10
+    for use in ('optional', 'required'):
+        for i, (tp, fixed, rows) in enumerate(FIXED_MATRIX):
+            s = cls('<xs:schema xmlns:xs="%s" xmlns:t="%s" targetNamespace="%s">%s<xs:element name="e"><xs:complexType>'
+                    '<xs:attribute name="a" type="%s" fixed="%s" use="%s"/></xs:complexType></xs:element></xs:schema>'
+                    % (XS, TNS, TNS, FIXED_TYPES, tp, fixed, use))
+            for text, exp in rows + [(None, use == 'optional')]:
+                st.case()
+                st.nt(('fixed', ver, use, tp, fixed, text))
+                doc = '<t:e xmlns:t="%s"%s/>' % (TNS, '' if text is None else ' a="%s"' % text)
+                got = s.is_valid(doc)
+                if got != exp:
+                    out.append({'kind': 'fixed_value_space', 'input': {'ver': ver, 'type': tp, 'fixed': fixed, 'use': use,
+                                                                       'value': text},
+                                'expected': exp, 'observed': got,
+                                'classes': ['fixed-nan-lexical-variant'] if (
+                                    'NaN' in fixed and text is not None and text != fixed) else [],
+                                'key': 'fixed|%s|%s|%s|%s|%r' % (ver, tp, fixed, use, text)})
+                elif exp and text is None:
+                    d = s.decode(doc)
+                    if not isinstance(d, dict) or '@a' not in d:
+                        out.append({'kind': 'fixed_not_in_data', 'input': {'ver': ver, 'type': tp, 'fixed': fixed, 'use': use,
+                                                                          'value': text},
+                                    'expected': '@a with the fixed value', 'observed': repr(d)[:100], 'classes': [],
+                                    'key': 'fixeddata|%s|%s|%s|%s' % (ver, tp, fixed, use)})
+    return out
+
+
 def subsets_for(tier, rnd):
     allsub = [tuple(c) for r in range(len(POOL) + 1) for c in itertools.combinations(POOL, r)]
     if tier == 'thorough':
@@ -257,12 +312,17 @@ def subsets_for(tier, rnd):
 
 
 def shards(tier, seed):
-    return [(ver, k, tier, seed) for ver in ('10', '11') for k in range(8)]
+    return [(ver, k, tier, seed) for ver in ('10', '11') for k in range(8)] + [(ver, 'fixed', tier, seed) for ver in ('10', '11')]
 
 
 def run_shard(desc):
     ver, k, tier, seed = desc
     st = core.Stats()
+    if k == 'fixed':
+        for r in judge_fixed_matrix(ver, st):
+            core.report(st, PROPERTY, r)
+        st.sample({'ver': ver, 'fixed-value matrix': [(t, f) for t, f, _ in FIXED_MATRIX]})
+        return st
     tmp = tempfile.mkdtemp(prefix='vf_c03_')
     with open(os.path.join(tmp, 'f.xsd'), 'w') as f:
         f.write(FSCHEMA)
@@ -284,6 +344,8 @@ def run_shard(desc):
 def replay(record):
     st = core.Stats()
     inp = record['input']
+    if record['kind'] in ('fixed_value_space', 'fixed_not_in_data'):
+        return [r for r in judge_fixed_matrix(inp['ver'], st) if r['key'] == record['key']]
     tmp = tempfile.mkdtemp(prefix='vf_c03_')
     with open(os.path.join(tmp, 'f.xsd'), 'w') as f:
         f.write(FSCHEMA)
